@@ -2214,6 +2214,78 @@ class _FoldLiterals(ast.NodeTransformer):
                                             orelse=[ast.copy_location(ast.Assign(targets=[clone(t) for t in node.targets], value=ie.orelse), node)]), node)
         return node
 
+    def _enumerate_of_sized_list(self, node):
+        """for i, x in enumerate(X): BODY  ->  for i in range(N): x = X[i]; BODY     when X is a local built once as [E for _ in range(N)] (or
+        [E] * N), never resized or re-bound, and N is made of names bound once."""
+        it = node.iter
+        if not (isinstance(it, ast.Call) and dotted(it.func) == "enumerate" and len(it.args) == 1 and not it.keywords and isinstance(it.args[0], ast.Name)):
+            return None
+        if not (isinstance(node.target, ast.Tuple) and len(node.target.elts) == 2 and all(isinstance(e, ast.Name) for e in node.target.elts)):
+            return None
+        i, x = (e.id for e in node.target.elts)
+        X = it.args[0].id
+        fn = getattr(node, "_parent", None)
+        while fn is not None and not isinstance(fn, _FUNC):
+            fn = getattr(fn, "_parent", None)
+        if fn is None:
+            return None
+        stores = {}
+        for z in ast.walk(fn):
+            if isinstance(z, ast.Name) and isinstance(z.ctx, (ast.Store, ast.Del)):
+                stores[z.id] = stores.get(z.id, 0) + 1
+        params = {a.arg for a in ast.walk(fn.args) if isinstance(a, ast.arg)}
+        defs = [z for z in ast.walk(fn) if isinstance(z, ast.Assign) and len(z.targets) == 1 and isinstance(z.targets[0], ast.Name) and z.targets[0].id == X]
+        if len(defs) != 1 or stores.get(X, 0) != 1 or X in params:
+            return None
+        v = defs[0].value
+        N = None
+        if isinstance(v, ast.ListComp) and len(v.generators) == 1 and not v.generators[0].ifs and isinstance(v.generators[0].iter, ast.Call) and \
+                dotted(v.generators[0].iter.func) == "range" and len(v.generators[0].iter.args) == 1 and not v.generators[0].iter.keywords:
+            N = v.generators[0].iter.args[0]
+        elif isinstance(v, ast.BinOp) and isinstance(v.op, ast.Mult) and isinstance(v.left, ast.List) and len(v.left.elts) == 1:
+            N = v.right
+        if N is None or not _effect_free(N):
+            return None
+        for z in ast.walk(N):
+            if isinstance(z, ast.Name) and not (stores.get(z.id, 0) == 1 or (z.id in params and stores.get(z.id, 0) == 0)):
+                return None
+            if isinstance(z, (ast.Call, ast.Attribute, ast.Subscript)):
+                return None
+        for z in ast.walk(fn):
+            if isinstance(z, ast.Call) and isinstance(z.func, ast.Attribute) and isinstance(z.func.value, ast.Name) and z.func.value.id == X and \
+                    z.func.attr in ("append", "extend", "insert", "pop", "remove", "clear", "sort", "reverse", "__setitem__", "__delitem__", "__iadd__"):
+                return None
+            if isinstance(z, ast.Delete) and any(X in {y.id for y in ast.walk(t_) if isinstance(y, ast.Name)} for t_ in z.targets):
+                return None
+            if isinstance(z, ast.AugAssign) and isinstance(z.target, ast.Name) and z.target.id == X:
+                return None
+            if isinstance(z, ast.Subscript) and isinstance(z.value, ast.Name) and z.value.id == X and isinstance(z.slice, ast.Slice) and isinstance(z.ctx, (ast.Store, ast.Del)):
+                return None
+        if any(isinstance(z, ast.Name) and z.id in (i, x) and isinstance(z.ctx, (ast.Store, ast.Del)) for b in node.body for z in ast.walk(b)):
+            return None
+        self.count += 1
+        elem = ast.Subscript(value=ast.Name(id=X, ctx=ast.Load()), slice=ast.Name(id=i, ctx=ast.Load()), ctx=ast.Load())
+        inside = {id(z) for z in ast.walk(node)}
+        comp_bound = set()
+        for z in ast.walk(fn):
+            if isinstance(z, (ast.ListComp, ast.SetComp, ast.DictComp, ast.GeneratorExp)) and id(z) not in inside:
+                if any(isinstance(y, ast.Name) and y.id == x for g in z.generators for y in ast.walk(g.target)):
+                    comp_bound |= {id(y) for y in ast.walk(z)}
+        used_outside = any(isinstance(z, ast.Name) and z.id == x and id(z) not in inside and id(z) not in comp_bound for z in ast.walk(fn))
+        nested_scope = any(isinstance(z, _FUNC + (ast.Lambda,)) for b in node.body for z in ast.walk(b))
+        if not used_outside and not nested_scope:
+            # x is the element only here: write the element where x stood
+            sub = _SubstName({x: elem})
+            body = [sub.visit(b) for b in node.body]
+        else:
+            bind = ast.copy_location(ast.Assign(targets=[ast.Name(id=x, ctx=ast.Store())], value=elem), node)
+            body = [bind] + list(node.body)
+        new = ast.For(target=ast.Name(id=i, ctx=ast.Store()), iter=ast.Call(func=ast.Name(id="range", ctx=ast.Load()), args=[clone(N)], keywords=[]),
+                      body=body, orelse=[], type_comment=None)
+        ast.copy_location(new, node)
+        ast.fix_missing_locations(new)
+        return new
+
     def visit_For(self, node):
         self.generic_visit(node)
         if node.orelse:
@@ -2244,6 +2316,9 @@ class _FoldLiterals(ast.NodeTransformer):
                 ast.fix_missing_locations(loop)
                 self.count += 1
                 return [init, loop]
+        r_enum = self._enumerate_of_sized_list(node)
+        if r_enum is not None:
+            return r_enum
         if isinstance(node.iter, (ast.Tuple, ast.List)) and len(node.iter.elts) == 1 and not isinstance(node.iter.elts[0], ast.Starred) and \
                 isinstance(node.target, ast.Name) and not any(isinstance(x, (ast.Break, ast.Continue)) for b in node.body for x in ast.walk(b)):
             # for x in (E,): BODY   ->   x = E; BODY
